@@ -113,30 +113,62 @@ def run(ctx):
         ctx.ob('C31.clear', cls + '.lfsr.clear-on-transfer', extra == {('self.source.ready', True)}, c[0].loc if c else None,
                'the COM restart must be conditioned on the transfer of that word (source.ready) and on nothing else: extra '
                'conditions %s' % (sorted(extra) if extra is not None else None))
+        # what each output byte is, as a GF(2) function of (keystream, input word), for EVERY valuation of (enable, the four
+        # K flags): the last driver whose guard holds decides; If/Else per byte, a pass-through default with an override, a
+        # Mux, and `data ^ (keystream & mask)` with a mask built from the flags are one function
+        from ..fsm import lit_atoms, assignments, holds
+        from .. import gf2 as _g
+        ctrls = ['self.sink.ctrl[%d:%d]' % (i, i + 1) for i in range(4)]
+        bad = {}
+        sym_loc = None
+        for asg in assignments(sorted(['self.enable'] + ctrls)):
+            vs_ = _g.Vars()
+            kv, dv = vs_.vec('lfsr.value', 32), vs_.vec('self.sink.payload', 32)
+            sub = {'self.enable': [int(asg['self.enable'])], 'self.sink.ctrl': [int(asg[c_]) for c_ in ctrls],
+                   'lfsr.value': kv, 'self.sink.payload': dv}
+
+            def local_forms(name, seen=()):
+                """forms of a combinational local written without conditions (whole or slice by slice)"""
+                si_ = s.signals.get(name)
+                w_ = si_.w if si_ is not None and isinstance(si_.w, int) else None
+                if w_ is None or name in seen:
+                    raise _g.NotAffine('local %s' % name)
+                out_ = [0] * w_
+                for a_ in sorted(s.drivers(name), key=lambda t: t.order):
+                    if a_.domain != 'comb' or a_.state is not None or not holds(a_.guard, asg, default=False):
+                        if a_.guard and not holds(a_.guard, asg, default=True):
+                            continue
+                        if a_.domain != 'comb' or a_.state is not None:
+                            raise _g.NotAffine('local %s is not purely combinational' % name)
+                    f_ = expr_forms(a_.rhs, seen + (name,))
+                    l_ = a_.lhs
+                    lo_, hi_ = (l_.args[1], l_.args[2]) if l_.op == 'slice' else (0, w_)
+                    f_ = (list(f_) + [0] * (hi_ - lo_))[:hi_ - lo_]
+                    out_[lo_:hi_] = f_
+                return out_
+
+            def expr_forms(ex, seen=()):
+                sub2 = dict(sub)
+                for nm in sorted(ex.sigs()):
+                    if nm not in sub2 and not nm.startswith('self.') and '.' not in nm:
+                        sub2[nm] = local_forms(nm, seen)
+                return _g.forms(ex, vs_, None, sub2)
+            for i in range(4):
+                lo, hi = 8 * i, 8 * i + 8
+                bdv = sorted(q.bits_drivers(s, 'self.source.payload', lo, hi), key=lambda t: t[0].order)
+                sym_loc = sym_loc or (bdv[0][0].loc if bdv else None)
+                win = [ex for a_, ex in bdv if holds(a_.guard, asg, default=False)]
+                want = [k_ ^ d_ for k_, d_ in zip(kv[lo:hi], dv[lo:hi])] if (asg['self.enable'] and not asg[ctrls[i]]) else dv[lo:hi]
+                try:
+                    got = expr_forms(win[-1]) if win and win[-1] is not None else None
+                except _g.NotAffine as ex_:
+                    got = 'not a XOR network under this valuation: %s' % ex_
+                if got != want and i not in bad:
+                    bad[i] = (dict(asg), vs_.describe(got[0]) if isinstance(got, list) and got else got)
         for i in range(4):
-            lo, hi = 8 * i, 8 * i + 8
-            lhs = 'self.source.payload[%d:%d]' % (lo, hi)
-            ds = [x for x in s.assigns if x.lhs.canon() == lhs]
-            xor = [x for x in ds if x.rhs.canon() == 'lfsr.value[%d:%d] ^ self.sink.payload[%d:%d]' % (lo, hi, lo, hi)]
-            thru = [x for x in ds if x.rhs.canon() == 'self.sink.payload[%d:%d]' % (lo, hi)]
-            ctrl = 'self.sink.ctrl[%d:%d]' % (i, i + 1)
-            # what drives this byte for each valuation of (enable, K flag) -- last assignment wins; an If/Else and a
-            # pass-through default with an override are the same thing
-            from ..fsm import lit_atoms, assignments, holds
-            bd = sorted(q.bits_drivers(s, 'self.source.payload', lo, hi), key=lambda t: t[0].order)
-            ats = sorted({x for a_, _ in bd for l in a_.guard for x in lit_atoms(l)} | {'self.enable', ctrl} |
-                         {x for _, ex in bd if ex is not None for n_ in ex.walk() if n_.op == 'mux' for x in q.bool_leaves(n_.args[0])})
-            ok = bool(bd) and ats == sorted({'self.enable', ctrl}) and all(ex is not None for _, ex in bd)
-            if ok:
-                for asg in assignments(ats):
-                    win = [ex for a_, ex in bd if holds(a_.guard, asg)]
-                    wantx = 'lfsr.value[%d:%d] ^ self.sink.payload[%d:%d]' % (lo, hi, lo, hi) if (asg['self.enable'] and not asg[ctrl]) \
-                        else 'self.sink.payload[%d:%d]' % (lo, hi)
-                    ok = ok and bool(win) and q.resolve_mux(win[-1], asg).canon() == wantx
-            ds = [a_ for a_, _ in bd] or ds
-            ctx.ob('C31.symbol-xor', '%s.symbol%d' % (cls, i), ok, ds[0].loc if ds else None,
+            ctx.ob('C31.symbol-xor', '%s.symbol%d' % (cls, i), i not in bad, sym_loc,
                    'symbol %d: data XOR keystream byte %d under enable & ~ctrl[%d], unchanged otherwise: %s' % (
-                       i, i, i, [q.fmt(x) for x in ds]))
+                       i, i, i, ('with %s bit 0 of the symbol is %s' % bad[i]) if i in bad else 'holds for all 32 valuations of (enable, K flags)'))
         for lhs, rhs in (('self.source.ctrl', 'self.sink.ctrl'), ('self.source.valid', 'self.sink.valid'), ('self.sink.ready', 'self.source.ready')):
             d = s.drivers(lhs, exact=True)
             ctx.ob('C31.passthrough', '%s.%s' % (cls, lhs), len(d) == 1 and d[0].rhs.canon() == rhs and not d[0].guard, d[0].loc if d else None,
